@@ -118,6 +118,11 @@ def run_case(seed):
     p0 = os.path.join(root, 'plt00000')
     img0 = diskimg.image_of(pf0)
     diskimg.write_image(img0, p0)
+    rl = random.Random(seed * 389 + 1)
+    if rl.random() < 0.2:
+        # the first plotfile of the chain has level directories / binary files that are symbolic links
+        pf0.meta['symlinks'] = gen.symlink_parts(p0, os.path.join(root, 'store'), rl)
+    count(f"symbolic links inside the first input={'symlinks' in pf0.meta}")
     # all sequences of length <= 2 over operation kinds are enumerated by the seeds; longer ones sampled
     nops = rng.choice([1, 2, 2, 3, 3, 4])
     kinds = ['colander', 'chef', 'combine_sibling', 'combine_ancestor']
